@@ -11,7 +11,7 @@ open EupsModel.Lock (Pid Kind Err exFiles parentHolds)
 /-- resting points: the process is not in the middle of `takeLocks` or `giveLocks` (the `sleep` between two
 attempts of an exclusive request counts as one) -/
 def quiet : PC → Bool
-  | .mkdir _ | .hold | .done | .failedAcq _ | .failedRel _ => true
+  | .mkdir _ | .hold | .done | .failedAcq _ | .failedRel _ | .killed => true
   | _ => false
 
 theorem hold_of_quiet_hasFile {pc : PC} (hq : quiet pc = true) (hf : hasFile pc = true) : pc = .hold := by
@@ -49,6 +49,7 @@ theorem nodup_step (s : St) (p : Pid) (h : Inv s) (hn : s.files.Nodup) : (step s
   | done => unfold step; simp only [hpc]; exact hn
   | failedAcq e => unfold step; simp only [hpc]; exact hn
   | failedRel e => unfold step; simp only [hpc]; exact hn
+  | killed => unfold step; simp only [hpc]; exact hn
 
 theorem nodup_run (s : St) (sched : List Pid) (h : Inv s) (hn : s.files.Nodup) : (run s sched).files.Nodup := by
   induction sched generalizing s with
